@@ -186,7 +186,6 @@ class HTTPChannel(wasyncore.dispatcher):
             self.total_outbufs_len += num_bytes
             self.sent_continue = True
             self._flush_some()
-        self.request.completed = False
 
     def received(self, data):
         """
@@ -218,6 +217,7 @@ class HTTPChannel(wasyncore.dispatcher):
                 if (
                     self.request.expect_continue
                     and self.request.headers_finished
+                    and not self.request.completed
                     and not self.requests
                     and not self.sent_continue
                 ):
